@@ -485,6 +485,40 @@ func rulesC02(p *Prog, r *Report) {
 			} else {
 				r.Bad("M6", "plus cells|selection", p.pos(lac.Pos()), why)
 			}
+			// determination: apart from the exact-equality shortcut, a match implies that the test of the
+			// row's own cell holds (extra gates can only make the verdict false, so they never trip this;
+			// a guard that bypasses the cell's range test with some other comparison does)
+			exact := "(*spdxexp.nodePair).licensesExactlyEqual(" + recv + ")"
+			if cellOK && ok && containsStr(atoms, exact) {
+				why2 := ""
+				bad2, _, ok2 := forAll([]*qf{f}, func(asg map[string]bool) bool {
+					v, _ := evalQ(f, asg)
+					if !v || asg[canonAtom(exact)] {
+						return true
+					}
+					var cell string
+					switch {
+					case asg[canonAtom(hp1)] && asg[canonAtom(hp2)]:
+						cell = both
+					case !asg[canonAtom(hp1)] && asg[canonAtom(hp2)]:
+						cell = fwd
+					case asg[canonAtom(hp1)] && !asg[canonAtom(hp2)]:
+						cell = rev
+					default:
+						cell = eqAtom
+					}
+					if !asg[canonAtom(cell)] {
+						why2 = fmt.Sprintf("in the cell hasPlus(first)=%v, hasPlus(second)=%v the terms can match although they are not exactly equal and the cell's own test %s is false: the verdict does not go through the range table there (%s)", asg[canonAtom(hp1)], asg[canonAtom(hp2)], shortDesc(cell), showAsg(asg))
+						return false
+					}
+					return true
+				})
+				if ok2 && bad2 != nil {
+					r.Bad("M6", "plus cells|determination", p.pos(lac.Pos()), why2)
+				} else if ok2 {
+					r.OK("M6", "plus cells|determination", p.pos(lac.Pos()), "match ⇒ exactly equal ∨ the cell's own test", "", true)
+				}
+			}
 		}
 	}
 	_ = token.ADD
